@@ -6,7 +6,7 @@
 # with it.  On success the material is copied to /verif/seeded/<name>/ with what was run recorded in meta.json.
 set -u
 PID="$1"; NAME="${2:-$PID}"
-WT="/tmp/seed-$PID"; S="$WT/SEED"
+WT="${3:-/tmp/seed-$PID}"; S="$WT/SEED"
 export CARGO_NET_OFFLINE=true CARGO_TARGET_DIR="$WT/target"
 [ -f "$S/patch.diff" ] || { echo "no patch in $S"; exit 2; }
 cd "$WT" || exit 2
